@@ -20,8 +20,12 @@ def hexs(s):
   return "s" + s.encode("utf-8").hex()
 
 
-def value_tokens(o, out=None):
-  """Real Python object -> token list of the model's [value]."""
+def value_tokens(o, out=None, cls_ref=None):
+  """Real Python object -> token list of the model's [value].
+
+  cls_ref (a dict) is given for resolved type nodes: a ClassType's class pointer may lead anywhere (also back to
+  the node), so it is rendered as an opaque reference 'cls#k' (k = identity of the class object) instead of
+  being followed.  Only the ==/hash leg uses this; there the model ignores the field, as the code does."""
   top = out is None
   if top:
     out = []
@@ -46,12 +50,12 @@ def value_tokens(o, out=None):
   elif isinstance(o, tuple):
     out += ["(", "t"]
     for x in o:
-      value_tokens(x, out)
+      value_tokens(x, out, cls_ref)
     out.append(")")
   elif isinstance(o, list):
     out += ["(", "l"]
     for x in o:
-      value_tokens(x, out)
+      value_tokens(x, out, cls_ref)
     out.append(")")
   elif isinstance(o, (set, frozenset)):
     out += ["(", "S"]
@@ -60,7 +64,7 @@ def value_tokens(o, out=None):
     except TypeError:
       items = sorted(o, key=repr)
     for x in items:
-      value_tokens(x, out)
+      value_tokens(x, out, cls_ref)
     out.append(")")
   elif isinstance(o, dict):
     out += ["(", "d"]
@@ -68,12 +72,16 @@ def value_tokens(o, out=None):
       if not isinstance(k, str):
         raise Untranslatable("dict key %r" % (k,))
       out.append(hexs(k))
-      value_tokens(v, out)
+      value_tokens(v, out, cls_ref)
     out.append(")")
   elif isinstance(o, msgspec.Struct):
     out += ["(", "c", hexs(type(o).__name__)]
     for f in o.__struct_fields__:
-      value_tokens(getattr(o, f), out)
+      v = getattr(o, f)
+      if cls_ref is not None and f == "cls" and type(o).__name__ == "ClassType" and v is not None:
+        out.append(hexs("cls#%d" % cls_ref.setdefault(id(v), len(cls_ref))))
+      else:
+        value_tokens(v, out, cls_ref)
     out.append(")")
   else:
     raise Untranslatable(repr(type(o)))
